@@ -1037,13 +1037,19 @@ func TestHarness(t *testing.T) {
 		"(direct Suspend/Resume or through the real suspending BlobAccess/DirectoryFetcher decorators; nested, overlapping, zero-length, starting/ending exactly at timer expiries), "+
 		"1-3 contexts/timers with timeouts 0..50 and 10000, maximumSuspension 0..40, threshold 1..8, cancellation by CancelFunc/parent/Stop at random and at model-predicted expiry instants "+
 		"with both tie orders; in 2/5 of the histories base timer expiries and base deadlines are handled up to g=1..12 ticks late with suspend/resume/cancel in between; non-trivial = some context or timer completed by deadline strictly later than creation+timeout (compensated) and at least two reads overlapped; "+
-		"distinct = hash of the op list. part 3: the real localBuildExecutor.Execute on the real clock with a fake runner that ends by itself (exit 0 / non-zero / runner error, at random instants and at the model-predicted kill instant with both tie orders) or is killed by its context, 0-7 reads stalling the worker while the command runs; status code, exit code, virtual_execution_duration and end of the run stage compared with execRun and judged by a monitor. part 2: every call path of NewSuspendingBlobAccess/NewSuspendingDirectoryFetcher x outcome x buffer consumption, suspends==resumes==1")
+		"distinct = hash of the op list. part 3: the real localBuildExecutor.Execute on the real clock with a fake runner that ends by itself (exit 0 / non-zero / runner error, at random instants and at the model-predicted kill instant with both tie orders) or is killed by its context, 0-7 reads stalling the worker while the command runs; status code, exit code, virtual_execution_duration and end of the run stage compared with execRun and judged by a monitor. part 4: the real NewTimestampedBuildExecutor around a scripted inner executor (updates of every type in any order, consumer holding updates, clock steps across second boundaries and backwards, inner executor with/without virtual duration and with stamps of its own) vs ExecStamp.stamp plus monitor (pass-through, fallback = completed - start >= 0 only without report, ordered stamps). part 5: timestampedBuildExecutor(localBuildExecutor) with the run stage ended by exit / runner error / outer context done (Canceled, DeadlineExceeded) / I/O error / timeout, at random and model-predicted kill instants with both tie orders, under storage stalls, vs ExecStamp.stampedRun plus monitor. part 2: every call path of NewSuspendingBlobAccess/NewSuspendingDirectoryFetcher x outcome x buffer consumption, suspends==resumes==1")
 	drv, err := hx.StartDriver("susclock")
 	if err != nil {
 		fmt.Fprintln(os.Stderr, "cannot start model driver:", err)
 		os.Exit(3)
 	}
 	defer drv.Close()
+	sdrv, err := hx.StartDriver("execstamp")
+	if err != nil {
+		fmt.Fprintln(os.Stderr, "cannot start model driver:", err)
+		os.Exit(3)
+	}
+	defer sdrv.Close()
 
 	report := func(c config, ops []op, v verdict) {
 		wantMonitor := v.monitor != ""
@@ -1075,7 +1081,10 @@ func TestHarness(t *testing.T) {
 			fmt.Fprintln(os.Stderr, err)
 			os.Exit(3)
 		}
-		if len(f.History) > 0 && strings.HasPrefix(f.History[0], "wrap ") {
+		if len(f.History) > 0 && (f.History[0] == "scfg" || strings.HasPrefix(f.History[0], "yxcfg ")) {
+			replayStamp(t, res, sdrv, f.History)
+			res.ModelLines = sdrv.Lines
+		} else if len(f.History) > 0 && strings.HasPrefix(f.History[0], "wrap ") {
 			replayWrappers(res, f.History)
 		} else if len(f.History) > 0 && strings.HasPrefix(f.History[0], "xcfg ") {
 			replayExecutor(t, res, drv, f.History)
@@ -1092,7 +1101,7 @@ func TestHarness(t *testing.T) {
 				report(c, ops, v)
 			}
 		}
-		res.ModelLines = drv.Lines
+		res.ModelLines += drv.Lines
 		res.Write(o)
 		return
 	}
@@ -1100,6 +1109,12 @@ func TestHarness(t *testing.T) {
 	runWrappers(res, hx.NewRand(o.Seed+7777), o)
 	if len(res.Findings) == 0 && !runExecutor(t, res, drv, hx.NewRand(o.Seed+424242), o) {
 		res.ModelLines = drv.Lines
+		res.Write(o)
+		return
+	}
+	if len(res.Findings) == 0 && (!runStamp(t, res, sdrv, hx.NewRand(o.Seed+515151), o) ||
+		!runEnders(t, res, sdrv, drv, hx.NewRand(o.Seed+616161), o)) {
+		res.ModelLines = drv.Lines + sdrv.Lines
 		res.Write(o)
 		return
 	}
@@ -1145,6 +1160,6 @@ func TestHarness(t *testing.T) {
 	if mismatches > 1 {
 		res.Notes = append(res.Notes, fmt.Sprintf("%d further histories disagreed with the model", mismatches-1))
 	}
-	res.ModelLines = drv.Lines
+	res.ModelLines = drv.Lines + sdrv.Lines
 	res.Write(o)
 }
